@@ -471,3 +471,126 @@ func (m *Msg) TemplateMsg() *Msg {
 	return &Msg{BsTag: m.BsTag, BlTag: m.BlTag, CsTag: m.CsTag, MtTag: m.MtTag, Bs: m.Bs, Mt: m.Mt,
 		Header: Template(m.Header), Body: Template(m.Body), Trailer: Template(m.Trailer)}
 }
+
+// ---------- neutral twins (C18): the same message without the text that could be taken for a tag ----------
+
+func cloneVal(v *Val) *Val {
+	if v == nil {
+		return nil
+	}
+	c := *v
+	c.S = append([]byte(nil), v.S...)
+	if v.S == nil {
+		c.S = nil
+	}
+	c.Src = append([]byte(nil), v.Src...)
+	if v.Src == nil {
+		c.Src = nil
+	}
+	return &c
+}
+
+func cloneItems(items []*Item) []*Item {
+	out := make([]*Item, len(items))
+	for i, it := range items {
+		c := &Item{Kind: it.Kind, Tag: it.Tag, V: cloneVal(it.V), Tpl: cloneItems(it.Tpl), Items: cloneItems(it.Items)}
+		for _, e := range it.Entries {
+			c.Entries = append(c.Entries, cloneItems(e))
+		}
+		out[i] = c
+	}
+	return out
+}
+
+// Clone is a deep copy.
+func (m *Msg) Clone() *Msg {
+	c := *m
+	c.Header, c.Body, c.Trailer = cloneItems(m.Header), cloneItems(m.Body), cloneItems(m.Trailer)
+	return &c
+}
+
+func walk(items []*Item, first bool, f func(it *Item, firstOfEntry bool)) {
+	for i, it := range items {
+		f(it, first && i == 0)
+		switch it.Kind {
+		case 'C':
+			walk(it.Items, first && i == 0, f)
+		case 'G':
+			for _, e := range it.Entries {
+				walk(e, true, f)
+			}
+		}
+	}
+}
+
+// Walk visits every item of the message (entries included); firstOfEntry marks the item a group
+// entry starts with (the delimiter field, which has to stay populated).
+func (m *Msg) Walk(f func(it *Item, firstOfEntry bool)) {
+	walk(m.Header, false, f)
+	walk(m.Body, false, f)
+	walk(m.Trailer, false, f)
+}
+
+// NoEqualsInValues is the twin in which no string or raw value contains '=' (so no value contains
+// text of the form "tag="); lengths are unchanged. The second result says whether anything changed.
+func (m *Msg) NoEqualsInValues() (*Msg, bool) {
+	c := m.Clone()
+	changed := false
+	c.Walk(func(it *Item, _ bool) {
+		if it.Kind == 'K' && it.V != nil && (it.V.Kind == 'S' || it.V.Kind == 'R') {
+			for i, b := range it.V.S {
+				if b == '=' {
+					it.V.S[i] = ':'
+					changed = true
+				}
+			}
+		}
+	})
+	return c, changed
+}
+
+func related(a, b string) bool {
+	return a != b && len(a) > 0 && len(b) > 0 && (strings.HasSuffix(a, b) || strings.HasPrefix(a, b) || strings.HasSuffix(b, a) || strings.HasPrefix(b, a))
+}
+
+// WithoutLookalikeFields is the twin in which every plain field whose tag number has another tag of
+// the template as a proper decimal suffix or prefix (or is one of another tag) is left unpopulated,
+// except the fields group entries start with.
+func (m *Msg) WithoutLookalikeFields() (*Msg, bool) {
+	c := m.Clone()
+	var tags []string
+	var collect func(items []*Item)
+	collect = func(items []*Item) {
+		for _, it := range items {
+			switch it.Kind {
+			case 'K':
+				tags = append(tags, it.Tag)
+			case 'C':
+				collect(it.Items)
+			case 'G':
+				tags = append(tags, it.Tag)
+				collect(it.Tpl)
+			}
+		}
+	}
+	collect(c.Header)
+	collect(c.Body)
+	collect(c.Trailer)
+	tags = append(tags, c.BsTag, c.BlTag, c.CsTag, c.MtTag)
+	lookalike := func(t string) bool {
+		for _, o := range tags {
+			if related(t, o) {
+				return true
+			}
+		}
+		return false
+	}
+	changed := false
+	c.Walk(func(it *Item, firstOfEntry bool) {
+		if it.Kind == 'K' && !firstOfEntry && it.V != nil && it.V.Valid && lookalike(it.Tag) {
+			it.V = &Val{Kind: it.V.Kind, Nil: true}
+			changed = true
+		}
+	})
+	return c, changed
+}
